@@ -489,6 +489,43 @@ def rule_m7(ctx) -> None:
     ctx.require(n_ok >= 3, "fewer than 3 molecule writers found in the rule layer (%d)" % n_ok)
 
 
+_COPY_CTORS = {"Mol", "RWMol", "deepcopy"}
+
+
+def _only_copies_leave(prog, f) -> bool:
+    """Every use of the memoised function's result is a `None` test or the argument of a copying constructor
+    (`Chem.Mol(x)`, `RWMol(x)`, `copy.deepcopy(x)`): the stored molecule itself never reaches a caller."""
+    sites = []
+    for q, g in prog.functions.items():
+        for c in calls(g):
+            if unparse(c.func).split(".")[-1] == f.name and g is not f:
+                sites.append((g, c))
+    if not sites:
+        return False
+
+    def use_ok(n) -> bool:
+        par = getattr(n, "_parent", None)
+        if isinstance(par, ast.Compare) and len(par.ops) == 1 and isinstance(par.ops[0], (ast.Is, ast.IsNot)):
+            return True
+        if isinstance(par, ast.Call) and n in par.args and unparse(par.func).split(".")[-1] in _COPY_CTORS:
+            return True
+        return False
+
+    for g, c in sites:
+        if use_ok(c):
+            continue
+        par = getattr(c, "_parent", None)
+        if not (isinstance(par, ast.Assign) and len(par.targets) == 1 and isinstance(par.targets[0], ast.Name)):
+            return False
+        nm = par.targets[0].id
+        if len(assignments_to(g, nm)) != 1:
+            return False
+        for n in own_nodes(g.node):
+            if isinstance(n, ast.Name) and n.id == nm and isinstance(n.ctx, ast.Load) and not use_ok(n):
+                return False
+    return True
+
+
 def rule_m8(ctx) -> None:
     """The merge machinery edits molecules in place (hydrogen fixing on the boundary atoms, M4).  Every Compound must
     therefore own its molecule: a function that hands out RDKit molecules must not be memoised."""
@@ -513,7 +550,7 @@ def rule_m8(ctx) -> None:
         for nm in names:
             for _st, v, _i in assignments_to(f, nm):
                 makes += [c for c in ast.walk(v) if isinstance(c, ast.Call) and unparse(c.func).split(".")[-1] in MOL_MAKERS]
-        bad = bool(makes) and bool(editors)
+        bad = bool(makes) and bool(editors) and not _only_copies_leave(prog, f)
         ctx.instance("C09-M8", "%s is memoised and returns a molecule: %s" % (q.split("synrbl.", 1)[-1], bool(makes)), f.loc(), ok=not bad)
         if bad:
             ctx.finding("C09-M8", "%s:memoised-molecule" % q.split("synrbl.", 1)[-1], f.loc(), "%s is memoised and returns an RDKit molecule; %s edits atoms of compound molecules in place (%s), so every later Compound built from the same SMILES starts from the edited molecule" % (f.name, editors[0][0].qualname.split(".")[-2] + "." + editors[0][0].name, unparse(editors[0][1])[:40]))
